@@ -102,6 +102,11 @@ pub fn run_program(base: &Path, out: &Path, program: &str) -> Result<(), String>
                         "a" => st.add_file_as(s(a[0]), &s(a[1])).map(|_| ()),
                         "t" => st.add_files_as(s(a[0]), &s(a[1])).map(|_| ()),
                         "d" => st.add_file_data(s(a[0]), &unhex(a[1])).map(|_| ()),
+                        // upper case: the same call with its result ignored (a build script that tolerates a missing optional input)
+                        "F" => st.add_file(s(a[0])).map(|_| ()).or(Ok(())),
+                        "G" => st.add_files(s(a[0])).map(|_| ()).or(Ok(())),
+                        "A" => st.add_file_as(s(a[0]), &s(a[1])).map(|_| ()).or(Ok(())),
+                        "T" => st.add_files_as(s(a[0]), &s(a[1])).map(|_| ()).or(Ok(())),
                         #[cfg(feature = "sass")]
                         "S" => st.add_sass_file(s(a[0])).map(|_| ()),
                         _ => return Err(format!("bad call {c}")),
